@@ -43,6 +43,38 @@ pub fn run(ctx: &Ctx, rep: &mut Report) {
         }
         rep.eval(&(GROUP, "params", bits));
     }
+    // ---- ... and capacities beyond the swept square: party indices that need more than one byte, and their neighbours
+    id += 1;
+    if ctx.mine(id) {
+        let big: &[usize] = if ctx.thorough() || is_fm { &[255, 256, 257, 300, 511, 512, 513, 1000, 1023, 1024, 1025, 2048, 4096, 65535] } else { &[255, 256, 257, 511, 512, 513, 1024, 1025, 65535] };
+        for &cap in big {
+            for bits in [1usize, 2] {
+                let want = cap.is_power_of_two();
+                if want && bits * cap > 4096 {
+                    continue;
+                }
+                let ext = 1 + (bits + cap) % 6;
+                rep.count("parameter_constructions", 1);
+                rep.distinct_extra += 1;
+                let d = json!({"constructor": "RangeParameters::init", "bits": bits, "capacity": cap, "group": GROUP});
+                match no_panic(|| RangeParameters::<P>::init(bits, cap, <P as Gx>::pedersen(ext))) {
+                    Err(p) => viol(rep, ctx, id, "C17 params-panic", format!("RangeParameters::init({bits}, {cap}) panicked: {p}"), d),
+                    Ok(r) => {
+                        if r.is_ok() != want {
+                            viol(rep, ctx, id, &format!("C17 params-domain ok={} capacity>130", r.is_ok()), format!("RangeParameters::init(bits {bits}, capacity {cap}) returned {}, the documented domain says {}", if r.is_ok() { "Ok" } else { "Err" }, if want { "Ok" } else { "Err" }), d.clone());
+                        }
+                        if let Ok(p) = r {
+                            rep.count("parameter_sets_built", 1);
+                            if p.max_aggregation_factor() != cap || p.gi_base_iter().count() != bits * cap || p.hi_base_iter().count() != bits * cap {
+                                viol(rep, ctx, id, "C17 params-adjusted", format!("RangeParameters::init({bits}, {cap}) succeeded but the accessors do not return what was requested"), d);
+                            }
+                        }
+                    },
+                }
+            }
+        }
+        rep.eval(&(GROUP, "params-large"));
+    }
     // ---- RangeStatement::init: counts 0..=17 x capacity {1,2,4,8,16} x promise count x seed
     for count in 0..=17usize {
         id += 1;
@@ -202,6 +234,27 @@ pub fn run(ctx: &Ctx, rep: &mut Report) {
                             if c != e {
                                 viol(rep, ctx, id, "C17 commit-value", "commit does not return v*H + sum r_k*G_k".into(), d.clone());
                             }
+                        }
+                    },
+                }
+            }
+        }
+        // a generator set that holds more blinding generators than its declared degree (the fields are public):
+        // the bound is the degree, not what happens to be held
+        for degree in 1..=5usize {
+            let mut pc = <P as Gx>::pedersen(6);
+            pc.extension_degree = ext_of(degree);
+            for len in 0..=7usize {
+                let bl: Vec<Scalar> = (0..len).map(|_| rand_scalar(&mut rng)).collect();
+                rep.count("mask_and_commit_constructions", 1);
+                rep.distinct_extra += 1;
+                let d = json!({"degree": degree, "generators_held": 6, "length": len});
+                match no_panic(|| pc.commit(&Scalar::from(7u64), &bl)) {
+                    Err(p) => viol(rep, ctx, id, "C17 commit-panic", format!("PedersenGens::commit panicked: {p}"), d.clone()),
+                    Ok(r) => {
+                        let want = len >= 1 && len <= degree;
+                        if r.is_ok() != want {
+                            viol(rep, ctx, id, &format!("C17 commit-domain ok={} spare-generators", r.is_ok()), format!("commit with {len} blinding factors under declared degree {degree} (6 generators held) returned {}", if r.is_ok() { "Ok" } else { "Err" }), d.clone());
                         }
                     },
                 }
